@@ -11,7 +11,13 @@ use zipora::io::zero_copy::{ZeroCopyRead, ZeroCopyWrite};
 use zipora::io::{DataInput, MemoryMappedInput, MmapZeroCopyReader, MultiRangeReader, RangeReader, RangeWriter, StreamBufferedReader, StreamBufferedWriter, ZeroCopyReader, ZeroCopyWriter};
 
 #[derive(Clone, Debug, PartialEq)]
-pub enum Out { Bytes(Vec<u8>), Peek(Vec<u8>), Nothing, Avail(usize), Skipped, Pos(u64), Err(String), Unsupported }
+pub enum Out { Bytes(Vec<u8>), Peek(Vec<u8>), Nothing, Avail(usize), Skipped, Pos(u64), Err(String), Unsupported,
+    /// (valid UTF-8?, number of buffered bytes the answer is about)
+    Flag(bool, usize),
+    /// (CRC32C, number of buffered bytes it covers)
+    Crc(u32, usize),
+    /// accessor values, meaning per operation
+    Info(Vec<u64>) }
 
 pub type Op = (String, i64);
 pub fn ops_json(ops: &[Op]) -> Value { Value::Array(ops.iter().map(|(a, b)| json!([a, b])).collect()) }
@@ -25,8 +31,26 @@ fn rd_generic<R: Read>(r: &mut R, name: &str, n: i64) -> Option<Out> {
     match name {
         "read" => { let mut b = vec![0u8; n as usize]; Some(match r.read(&mut b) { Ok(k) if k <= b.len() => { b.truncate(k); Out::Bytes(b) } Ok(k) => Out::Err(format!("read returned {} for a {}-byte buffer", k, n)), Err(e) => Out::Err(e.to_string()) }) }
         "exact" => { let mut b = vec![0u8; n as usize]; Some(match r.read_exact(&mut b) { Ok(()) => Out::Bytes(b), Err(e) => Out::Err(e.to_string()) }) }
+        // VectoredIO::read_vectored into three buffers (the middle one empty): the first `total` bytes of the
+        // buffers, taken in order, are what was read (the std::io::Read::read_vectored contract)
+        "vec" => {
+            let n = n as usize;
+            let (mut a, mut b, mut c) = (vec![0xA5u8; n / 3], vec![0u8; 0], vec![0xA5u8; n - n / 3]);
+            let mut bufs = [std::io::IoSliceMut::new(&mut a), std::io::IoSliceMut::new(&mut b), std::io::IoSliceMut::new(&mut c)];
+            Some(match zipora::io::VectoredIO::read_vectored(r, &mut bufs) {
+                Ok(k) if k <= n => { let mut all = a.clone(); all.extend_from_slice(&c); all.truncate(k); Out::Bytes(all) }
+                Ok(k) => Out::Err(format!("read_vectored returned {} for {} bytes of buffers", k, n)),
+                Err(e) => Out::Err(e.to_string()),
+            })
+        }
         _ => None,
     }
+}
+/// CRC32C (Castagnoli), bit by bit.
+pub fn crc32c_ref(data: &[u8]) -> u32 {
+    let mut crc = 0xFFFF_FFFFu32;
+    for &b in data { crc ^= b as u32; for _ in 0..8 { crc = if crc & 1 == 1 { (crc >> 1) ^ 0x82F6_3B78 } else { crc >> 1 }; } }
+    !crc
 }
 fn seek_generic<R: Seek>(r: &mut R, name: &str, n: i64) -> Option<Out> {
     let w = match name { "seek_start" => SeekFrom::Start(n as u64), "seek_cur" => SeekFrom::Current(n), "seek_end" => SeekFrom::End(n), _ => return None };
@@ -45,6 +69,10 @@ impl<R: Read> Sbr<R> {
             "simd" => { let mut b = vec![0u8; n as usize]; match self.r.read_simd_optimized(&mut b) { Ok(k) => { b.truncate(k); Out::Bytes(b) } Err(x) => e(x) } }
             "bulk" => { let mut b = vec![0u8; n as usize]; match self.r.read_bulk(&mut b) { Ok(k) => { b.truncate(k); Out::Bytes(b) } Err(x) => e(x) } }
             "fill_buf" => match self.r.fill_buf() { Ok(s) => Out::Peek(s.to_vec()), Err(x) => Out::Err(x.to_string()) },
+            "utf8" => match self.r.validate_utf8_buffered() { Ok(f) => Out::Flag(f, self.r.buffer_usage()), Err(x) => e(x) },
+            "usage" => Out::Info(vec![self.r.buffer_usage() as u64, self.r.has_data_in_buffer() as u64, self.r.total_read(), self.r.capacity() as u64]),
+            // with nothing buffered the inner reader stands at the logical position: bytes taken from it directly (get_mut) are the next bytes
+            "direct" => if self.r.buffer_usage() > 0 { Out::Unsupported } else { let mut b = vec![0u8; n as usize]; match self.r.get_mut().read(&mut b) { Ok(k) => { b.truncate(k); Out::Bytes(b) } Err(x) => Out::Err(x.to_string()) } },
             "consume" => {
                 // BufRead protocol: consume at most what fill_buf just showed
                 let k = match self.r.fill_buf() { Ok(s) => s.len().min(n as usize), Err(x) => return Some(Out::Err(x.to_string())) };
@@ -70,6 +98,11 @@ impl<R: Read> Rng_<R> {
             "byte" => match self.0.read_u8() { Ok(b) => Out::Bytes(vec![b]), Err(x) => Out::Err(x.to_string()) },
             "slice" => match self.0.read_vec(n as usize) { Ok(b) => Out::Bytes(b), Err(x) => Out::Err(x.to_string()) },
             "pos" => Out::Pos(DataInput::position(&self.0).unwrap_or(u64::MAX)),
+            // [current - start, remaining, range_length, at_end, has_remaining, progress in 1e-6]
+            "rinfo" => Out::Info(vec![self.0.current_position().wrapping_sub(self.0.start_position()), self.0.remaining(), self.0.range_length(), self.0.is_at_end() as u64,
+                DataInput::has_remaining(&self.0).map(|b| b as u64).unwrap_or(2), (self.0.progress() * 1e6).round() as u64, self.0.end_position().saturating_sub(self.0.start_position())]),
+            // the total size of the inner stream becomes known: the range is cut there (n is relative to the range start)
+            "set_total" => { let abs = self.0.start_position().saturating_add(n as u64); self.0.set_total_size(abs); Out::Skipped }
             _ => return None,
         })
     }
@@ -81,6 +114,8 @@ impl Rd for RngSeek {
         match name {
             "reset" => match self.0 .0.reset() { Ok(()) => Out::Pos(0), Err(x) => Out::Err(x.to_string()) },
             "seek_in" => match self.0 .0.seek_in_range(n as u64) { Ok(p) => Out::Pos(p), Err(x) => Out::Err(x.to_string()) },
+            // where the inner cursor stands, relative to the range start (get_ref)
+            "inner_pos" => { let a = self.0 .0.get_ref().position(); let b = self.0 .0.get_mut().position(); if a != b { return Out::Err("get_ref / get_mut show different inner readers".into()); } Out::Pos(a.wrapping_sub(self.0 .0.start_position())) }
             _ => seek_generic(&mut self.0 .0, name, n).unwrap_or(Out::Unsupported),
         }
     }
@@ -102,6 +137,14 @@ impl<R: Read> Rd for Zc<R> {
                 let s = match self.0.zc_read(n as usize) { Ok(Some(s)) => s.to_vec(), Ok(None) => return Out::Nothing, Err(x) => return e(x) };
                 match self.0.zc_advance(n as usize) { Ok(()) => Out::Bytes(s), Err(x) => e(x) }
             }
+            "utf8" => match self.0.validate_utf8_buffer() { Ok(f) => Out::Flag(f, self.0.zc_available()), Err(x) => e(x) },
+            "crc" => match self.0.checksum_buffer_crc32c() { Ok(c) => Out::Crc(c, self.0.zc_available()), Err(x) => e(x) },
+            "vcrc" => match self.0.validate_and_checksum() {
+                Ok((f, c)) => { let k = self.0.zc_available(); if self.0.validate_utf8_buffer().ok() != Some(f) { return Out::Err("validate_and_checksum disagrees with validate_utf8_buffer".into()); } Out::Crc(c, k) }
+                Err(x) => e(x),
+            },
+            "usage" => Out::Info(vec![self.0.zc_available() as u64]),
+            "direct" => if self.0.zc_available() > 0 { Out::Unsupported } else { let mut b = vec![0u8; n as usize]; match self.0.get_mut().read(&mut b) { Ok(k) => { b.truncate(k); Out::Bytes(b) } Err(x) => Out::Err(x.to_string()) } },
             _ => Out::Unsupported,
         }
     }
@@ -121,6 +164,9 @@ impl Rd for MmZc {
             "seek_start" => self.0.set_position(n as usize).map(|_| Out::Pos(n as u64)).unwrap_or_else(e),
             "pos" => Out::Pos(self.0.position() as u64),
             "ensure" => self.0.zc_ensure(n as usize).map(Out::Avail).unwrap_or_else(e),
+            // [zc_available, len - position, remaining_slice length, first byte of remaining_slice + 1, as_slice length, is_empty]
+            "usage" => Out::Info(vec![self.0.zc_available() as u64, (self.0.len() - self.0.position()) as u64, self.0.remaining_slice().len() as u64,
+                self.0.remaining_slice().first().map(|&b| b as u64 + 1).unwrap_or(0), self.0.as_slice().len() as u64, self.0.is_empty() as u64]),
             _ => Out::Unsupported,
         }
     }
@@ -139,12 +185,25 @@ impl Rd for Mmi {
             "seek_start" => self.0.seek(n as usize).map(|_| Out::Pos(n as u64)).unwrap_or_else(e),
             "byte" => self.0.read_u8().map(|b| Out::Bytes(vec![b])).unwrap_or_else(e),
             "pos" => Out::Pos(self.0.position() as u64),
+            // [remaining, len, is_empty]
+            "usage" => Out::Info(vec![self.0.remaining() as u64, self.0.len() as u64, self.0.is_empty() as u64]),
             _ => Out::Unsupported,
         }
     }
 }
-struct Multi(MultiRangeReader<Cursor<Vec<u8>>>);
-impl Rd for Multi { fn op(&mut self, name: &str, n: i64) -> Out { rd_generic(&mut self.0, name, n).unwrap_or(Out::Unsupported) } }
+struct Multi(MultiRangeReader<Cursor<Vec<u8>>>, u64);
+impl Rd for Multi {
+    fn op(&mut self, name: &str, n: i64) -> Out {
+        if let Some(o) = rd_generic(&mut self.0, name, n) { return o; }
+        match name {
+            // ranges are kept inside the file (also when a shrunk replay has less data than the case was generated for)
+            "add_range" => { let (a, b) = (((n as u64) >> 20).min(self.1), ((n as u64) & 0xF_FFFF).min(self.1)); self.0.add_range(a, b); Out::Skipped }
+            "next_range" => Out::Info(vec![self.0.next_range() as u64]),
+            "minfo" => { let c = self.0.current_range(); Out::Info(vec![self.0.total_length(), c.is_some() as u64, c.map(|x| x.0).unwrap_or(0), c.map(|x| x.1).unwrap_or(0)]) }
+            _ => Out::Unsupported,
+        }
+    }
+}
 
 /// How the reference interprets the reader: its byte stream, whether short answers are legal, seek rules.
 pub struct Spec {
@@ -152,95 +211,234 @@ pub struct Spec {
     pub cap: usize,          // requests up to this size must be served in full by peek/slice when the data exists
     pub seek_clamp: Option<u64>, // Some(range_len): seeks clamp into [0, range_len]; None: pass-through
     pub exact_reads: bool,   // "read" behaves like read_exact or fails (MemoryMappedInput::read_slice)
+    pub kind: usize,
+    pub range_l: u64,        // range kinds: end - start of the range (may exceed the data)
+    pub multi: Option<(Vec<u8>, Vec<(u64, u64)>)>, // multi-range reader: the whole inner data and the initial ranges
 }
 
-pub const N_RKIND: usize = 11;
+pub const N_RKIND: usize = 13;
 pub fn rkind_name(k: usize) -> &'static str {
-    ["sbr", "sbr_chunky", "range", "range_chunky", "zc", "zc_chunky", "mmap_zc", "mmapped_input", "multi_range", "range_over_sbr", "sbr_over_range"][k % N_RKIND]
+    ["sbr", "sbr_chunky", "range", "range_chunky", "zc", "zc_chunky", "mmap_zc", "mmapped_input", "multi_range", "range_over_sbr", "sbr_over_range", "sbr_preset", "zc_default"][k % N_RKIND]
 }
 fn g(cfg: &[u64], i: usize, d: u64) -> u64 { cfg.get(i).copied().unwrap_or(d) }
+pub const ALIGNMENTS: [usize; 5] = [1, 1, 2, 64, 4096];
+/// Deterministic content of a big input, described in the case by (n, seed, mode): 0 = bytes, 1 = ASCII text, 2 = UTF-8 text with multi-byte characters.
+pub fn gen_data(n: usize, seed: u64, mode: u64) -> Vec<u8> {
+    let mut r = Rng::new(seed ^ 0xDA7A);
+    match mode {
+        1 => (0..n).map(|_| b' ' + (r.next() % 95) as u8).collect(),
+        2 => {
+            let alpha = ["a", "Z", "0", " ", "\u{e9}", "\u{65e5}", "\u{1d11e}", "\u{7f}", "\u{80}", "\u{7ff}", "\u{800}", "\u{ffff}", "\u{10000}"];
+            let mut s = Vec::with_capacity(n + 4);
+            while s.len() < n { s.extend_from_slice(alpha[(r.next() % alpha.len() as u64) as usize].as_bytes()); }
+            while s.len() > n { s.pop(); } // may cut the last character: then the very end is an incomplete sequence
+            if let Err(e) = std::str::from_utf8(&s) { let v = e.valid_up_to(); for x in s[v..].iter_mut() { *x = b'.'; } }
+            s
+        }
+        _ => { let k = r.next() as u32 | 1; (0..n).map(|i| ((i as u32).wrapping_mul(2654435761).wrapping_add(k) >> 13) as u8).collect() }
+    }
+}
 
-/// cfg: [cap, max_cap, readahead, mult, bulk, growth15, chunk, start, len, pool]
+/// cfg: [cap, max_cap, readahead, mult, bulk, growth15, chunk, start, len, pool, alignment index (not for multi_range), constructor variant]
+/// sbr_preset: cfg[0] = preset (0 new, 1 performance_optimized, 2 memory_efficient, 3 low_latency, 4 default config through with_config), cfg[6] = chunk (0 = plain cursor)
 pub fn build(cx: &Ctx, kind: usize, data: &[u8], cfg: &[u64]) -> Result<(Box<dyn Rd>, Spec), String> {
     let e = |x: zipora::ZiporaError| x.to_string();
+    let kind = kind % N_RKIND;
     let cap = g(cfg, 0, 8).max(1) as usize;
     let max = (g(cfg, 1, 0) as usize).max(cap);
-    let sc = sb_cfg(cap, max, g(cfg, 2, 1) == 1, g(cfg, 3, 2) as usize, (g(cfg, 4, 8192) as usize).max(1), if g(cfg, 5, 0) == 1 { 1.5 } else { 2.0 }, g(cfg, 9, 0) == 1);
+    let mut sc = sb_cfg(cap, max, g(cfg, 2, 1) == 1, g(cfg, 3, 2) as usize, (g(cfg, 4, 8192) as usize).max(1), if g(cfg, 5, 0) == 1 { 1.5 } else { 2.0 }, g(cfg, 9, 0) == 1);
+    if kind != 8 { sc.page_alignment = ALIGNMENTS[g(cfg, 10, 0) as usize % ALIGNMENTS.len()]; }
+    let variant = if kind == 8 { 0 } else { g(cfg, 11, 0) };
     let chunk = g(cfg, 6, 1).max(1) as usize;
     let start = g(cfg, 7, 0);
     let len = g(cfg, 8, data.len() as u64);
     let dl = data.len() as u64;
     let range_bytes = || data[(start.min(dl) as usize)..(start.saturating_add(len).min(dl) as usize)].to_vec();
-    let path = format!("{}/rd_{}.bin", cx.tmp, kind % N_RKIND);
-    Ok(match kind % N_RKIND {
-        0 => (Box::new(SbrSeek(Sbr { r: StreamBufferedReader::with_config(Cursor::new(data.to_vec()), sc).map_err(e)? })), Spec { stream: data.to_vec(), cap, seek_clamp: None, exact_reads: false }),
-        1 => (Box::new(SbrPlain(Sbr { r: StreamBufferedReader::with_config(Chunky { inner: Cursor::new(data.to_vec()), k: chunk }, sc).map_err(e)? })), Spec { stream: data.to_vec(), cap: 0, seek_clamp: None, exact_reads: false }),
-        2 => (Box::new(RngSeek(Rng_(RangeReader::new_and_seek(Cursor::new(data.to_vec()), start, len).map_err(e)?))), Spec { stream: range_bytes(), cap: usize::MAX, seek_clamp: Some(start.saturating_add(len) - start), exact_reads: false }),
+    let path = format!("{}/rd_{}.bin", cx.tmp, kind);
+    let sp = |stream: Vec<u8>, cap: usize, seek_clamp: Option<u64>, range_l: u64| Spec { stream, cap, seek_clamp, exact_reads: kind == 7, kind, range_l, multi: None };
+    Ok(match kind {
+        0 => (Box::new(SbrSeek(Sbr { r: StreamBufferedReader::with_config(Cursor::new(data.to_vec()), sc).map_err(e)? })), sp(data.to_vec(), cap, None, 0)),
+        1 => (Box::new(SbrPlain(Sbr { r: StreamBufferedReader::with_config(Chunky { inner: Cursor::new(data.to_vec()), k: chunk }, sc).map_err(e)? })), sp(data.to_vec(), 0, None, 0)),
+        2 => {
+            let l = start.saturating_add(len) - start;
+            let c = Cursor::new(data.to_vec());
+            let rr = match variant % 4 {
+                0 => RangeReader::new_and_seek(c, start, len).map_err(e)?,
+                1 => { let mut c = c; c.set_position(start); RangeReader::with_range(c, start, start.saturating_add(len)) }
+                2 => zipora::io::range::reader(c, start, len).map_err(e)?,
+                // an inverted range (end before start) is an empty range
+                _ => { let mut c = c; c.set_position(start); return Ok((Box::new(RngSeek(Rng_(RangeReader::with_range(c, start, start.saturating_sub(1 + len % 3))))), sp(vec![], usize::MAX, Some(0), 0))); }
+            };
+            (Box::new(RngSeek(Rng_(rr))), sp(range_bytes(), usize::MAX, Some(l), l))
+        }
         3 => {
             // a non-seekable inner positioned at `start` by reading
             let mut inner = Chunky { inner: Cursor::new(data.to_vec()), k: chunk };
             let mut sk = vec![0u8; start.min(dl) as usize];
             inner.read_exact(&mut sk).map_err(|x| x.to_string())?;
             let st = start.min(dl);
-            (Box::new(RngPlain(Rng_(RangeReader::new(inner, st, len)))), Spec { stream: data[st as usize..(st.saturating_add(len).min(dl) as usize)].to_vec(), cap: usize::MAX, seek_clamp: None, exact_reads: false })
+            let rr = if variant % 2 == 1 { RangeReader::with_range(inner, st, st.saturating_add(len)) } else { RangeReader::new(inner, st, len) };
+            (Box::new(RngPlain(Rng_(rr))), sp(data[st as usize..(st.saturating_add(len).min(dl) as usize)].to_vec(), usize::MAX, None, st.saturating_add(len) - st))
         }
-        4 => (Box::new(Zc(ZeroCopyReader::with_capacity(Cursor::new(data.to_vec()), cap).map_err(e)?)), Spec { stream: data.to_vec(), cap, seek_clamp: None, exact_reads: false }),
-        5 => (Box::new(Zc(if g(cfg, 9, 0) == 1 { ZeroCopyReader::with_secure_buffer(Chunky { inner: Cursor::new(data.to_vec()), k: chunk }, cap).map_err(e)? } else { ZeroCopyReader::with_capacity(Chunky { inner: Cursor::new(data.to_vec()), k: chunk }, cap).map_err(e)? })), Spec { stream: data.to_vec(), cap, seek_clamp: None, exact_reads: false }),
+        4 => (Box::new(Zc(ZeroCopyReader::with_capacity(Cursor::new(data.to_vec()), cap).map_err(e)?)), sp(data.to_vec(), cap, None, 0)),
+        5 => (Box::new(Zc(if g(cfg, 9, 0) == 1 { ZeroCopyReader::with_secure_buffer(Chunky { inner: Cursor::new(data.to_vec()), k: chunk }, cap).map_err(e)? } else { ZeroCopyReader::with_capacity(Chunky { inner: Cursor::new(data.to_vec()), k: chunk }, cap).map_err(e)? })), sp(data.to_vec(), cap, None, 0)),
         6 => {
             if data.is_empty() { return Err("skip: empty file cannot be mapped".into()); }
             std::fs::write(&path, data).map_err(|x| x.to_string())?;
-            (Box::new(MmZc(MmapZeroCopyReader::new(std::fs::File::open(&path).map_err(|x| x.to_string())?).map_err(e)?)), Spec { stream: data.to_vec(), cap: usize::MAX, seek_clamp: None, exact_reads: false })
+            (Box::new(MmZc(MmapZeroCopyReader::new(std::fs::File::open(&path).map_err(|x| x.to_string())?).map_err(e)?)), sp(data.to_vec(), usize::MAX, None, 0))
         }
         7 => {
+            use zipora::io::AccessPattern;
             std::fs::write(&path, data).map_err(|x| x.to_string())?;
-            (Box::new(Mmi(MemoryMappedInput::from_path(&path).map_err(e)?)), Spec { stream: data.to_vec(), cap: usize::MAX, seek_clamp: None, exact_reads: true })
+            let pat = [AccessPattern::Unknown, AccessPattern::Sequential, AccessPattern::Random, AccessPattern::Mixed][(variant % 4) as usize];
+            let m = match variant % 12 / 4 {
+                0 => MemoryMappedInput::from_path(&path),
+                1 => MemoryMappedInput::from_path_with_pattern(&path, pat),
+                _ => MemoryMappedInput::new_with_pattern(std::fs::File::open(&path).map_err(|x| x.to_string())?, pat),
+            }.map_err(e)?;
+            (Box::new(Mmi(m)), sp(data.to_vec(), usize::MAX, None, 0))
         }
         8 => {
             // cfg[10..] = (start, end) pairs
             let mut ranges = vec![];
-            let mut stream = vec![];
             let mut i = 10;
-            while i + 1 < cfg.len() { let (a, b) = (cfg[i].min(dl), cfg[i + 1].min(dl)); ranges.push((a, b)); if a < b { stream.extend_from_slice(&data[a as usize..b as usize]); } i += 2; }
-            (Box::new(Multi(MultiRangeReader::new(Cursor::new(data.to_vec()), ranges))), Spec { stream, cap: 0, seek_clamp: None, exact_reads: false })
+            while i + 1 < cfg.len() { let (a, b) = (cfg[i].min(dl), cfg[i + 1].min(dl)); ranges.push((a, b)); i += 2; }
+            let mut s = sp(vec![], 0, None, 0);
+            s.multi = Some((data.to_vec(), ranges.clone()));
+            (Box::new(Multi(MultiRangeReader::new(Cursor::new(data.to_vec()), ranges), dl)), s)
         }
         9 => {
             let mut r = StreamBufferedReader::with_config(Cursor::new(data.to_vec()), sc).map_err(e)?;
             let st = start.min(dl);
             let mut sk = vec![0u8; st as usize];
             r.read_exact(&mut sk).map_err(|x| x.to_string())?;
-            (Box::new(RngPlain(Rng_(RangeReader::new(r, st, len)))), Spec { stream: data[st as usize..(st.saturating_add(len).min(dl) as usize)].to_vec(), cap: usize::MAX, seek_clamp: None, exact_reads: false })
+            (Box::new(RngPlain(Rng_(RangeReader::new(r, st, len)))), sp(data[st as usize..(st.saturating_add(len).min(dl) as usize)].to_vec(), usize::MAX, None, st.saturating_add(len) - st))
+        }
+        10 => {
+            let rr = RangeReader::new_and_seek(Cursor::new(data.to_vec()), start, len).map_err(e)?;
+            (Box::new(SbrPlain(Sbr { r: StreamBufferedReader::with_config(rr, sc).map_err(e)? })), sp(range_bytes(), cap, None, 0))
+        }
+        11 => {
+            // the preset constructors and configurations, over a plain or a short-read inner
+            let k = g(cfg, 6, 0) as usize;
+            let inner = Chunky { inner: Cursor::new(data.to_vec()), k: if k == 0 { usize::MAX } else { k } };
+            let (r, cap) = match g(cfg, 0, 0) % 5 {
+                0 => (StreamBufferedReader::new(inner), 64 * 1024),
+                1 => (StreamBufferedReader::performance_optimized(inner), 128 * 1024),
+                2 => (StreamBufferedReader::memory_efficient(inner), 16 * 1024),
+                3 => (StreamBufferedReader::low_latency(inner), 8 * 1024),
+                _ => (StreamBufferedReader::with_config(inner, zipora::io::StreamBufferConfig::default()), 64 * 1024),
+            };
+            (Box::new(SbrPlain(Sbr { r: r.map_err(e)? })), sp(data.to_vec(), if k == 0 { cap } else { 0 }, None, 0))
         }
         _ => {
-            let rr = RangeReader::new_and_seek(Cursor::new(data.to_vec()), start, len).map_err(e)?;
-            (Box::new(SbrPlain(Sbr { r: StreamBufferedReader::with_config(rr, sc).map_err(e)? })), Spec { stream: range_bytes(), cap, seek_clamp: None, exact_reads: false })
+            let k = g(cfg, 6, 0) as usize;
+            let inner = Chunky { inner: Cursor::new(data.to_vec()), k: if k == 0 { usize::MAX } else { k } };
+            (Box::new(Zc(ZeroCopyReader::new(inner).map_err(e)?)), sp(data.to_vec(), 64 * 1024, None, 0))
         }
     })
 }
 
+/// The multi-range reader against a shadow (ranges, index of the range being read, offset in it).
+fn drive_multi(rd: &mut dyn Rd, data: &[u8], ranges0: &[(u64, u64)], ops: &[Op], obs: &mut Vec<(Op, Out)>) -> Result<(), String> {
+    let mut ranges = ranges0.to_vec();
+    let (mut idx, mut off) = (0usize, 0u64);
+    let mut fuzzy = false;
+    for (i, (name, n)) in ops.iter().enumerate() {
+        let n = *n;
+        let out = rd.op(name, n);
+        obs.push(((name.clone(), n), out.clone()));
+        let ctx = format!("range {} of {:?} offset {}", idx, ranges, off);
+        let at = |m: String| format!("op {} ({} {}), {}: {}", i, name, n, ctx, m);
+        match (name.as_str(), out) {
+            (_, Out::Unsupported) => {}
+            ("read" | "exact" | "vec", Out::Bytes(b)) => {
+                // a read of at least one byte first leaves the ranges that are used up (as far as there is a next one)
+                let pre = |idx: &mut usize, off: &mut u64, ranges: &[(u64, u64)]| { while *idx + 1 < ranges.len() && ranges[*idx].0 + *off >= ranges[*idx].1 { *idx += 1; *off = 0; } };
+                if n > 0 && !ranges.is_empty() { pre(&mut idx, &mut off, &ranges); }
+                // what the reader still has to deliver, range after range
+                let mut rest: Vec<u8> = vec![];
+                for (k, &(a, e)) in ranges.iter().enumerate().skip(idx) { let s = if k == idx { a + off } else { a }; if s < e { rest.extend_from_slice(&data[s as usize..e as usize]); } }
+                if b.len() > rest.len() || b[..] != rest[..b.len()] { return Err(at(format!("returned {:?}, the ranges continue with {:?}", &b[..b.len().min(24)], &rest[..rest.len().min(24)]))); }
+                if b.len() as i64 > n || (name == "exact" && b.len() as i64 != n) { return Err(at(format!("returned {} bytes", b.len()))); }
+                if b.is_empty() && n > 0 && !rest.is_empty() { return Err(at("reported end of stream although ranges remain".into())); }
+                // advance the shadow by the delivered bytes
+                let mut k = b.len() as u64;
+                while k > 0 { let (a, e) = ranges[idx]; let avail = e.saturating_sub(a + off); if avail == 0 { idx += 1; off = 0; continue; } let t = k.min(avail); off += t; k -= t; }
+                // a vectored read that came back short may or may not have tried once more (which would leave a used-up range):
+                // which range is "current" is then open until the next read
+                fuzzy = name == "vec" && (b.len() as i64) < n;
+            }
+            ("exact", Out::Err(_)) => return Ok(()), // ran past the end (or legitimately short): position afterwards unspecified
+            ("add_range", Out::Skipped) => ranges.push((((n as u64) >> 20).min(data.len() as u64), ((n as u64) & 0xF_FFFF).min(data.len() as u64))),
+            ("next_range" | "minfo", Out::Info(_)) if fuzzy => return Ok(()),
+            ("next_range", Out::Info(v)) => {
+                let want = idx + 1 < ranges.len();
+                if v != vec![want as u64] { return Err(at(format!("next_range() = {:?}, want {}", v, want))); }
+                if want { idx += 1; off = 0; }
+            }
+            ("minfo", Out::Info(v)) => {
+                let total: u64 = ranges.iter().map(|&(a, e)| e.saturating_sub(a)).sum();
+                if v[0] != total { return Err(at(format!("total_length() = {}, want {}", v[0], total))); }
+                // which range is current is only fixed up to exhausted ranges: compare when the shadow's range still has bytes
+                if let Some(&(a, e)) = ranges.get(idx) { if a + off < e && (v[1] != 1 || (v[2], v[3]) != (a, e)) { return Err(at(format!("current_range() = {:?}", &v[1..]))); } }
+            }
+            (_, Out::Err(e)) => return Err(at(format!("failed: {}", e))),
+            (_, o) => return Err(at(format!("unexpected outcome {:?}", o))),
+        }
+    }
+    Ok(())
+}
+
 /// Runs the history; Err(msg) = the reader broke the property at some op.
 pub fn drive(rd: &mut dyn Rd, spec: &Spec, ops: &[Op], obs: &mut Vec<(Op, Out)>) -> Result<(), String> {
+    if let Some((data, ranges)) = &spec.multi { return drive_multi(rd, data, ranges, ops, obs); }
     let r = &spec.stream;
-    let rl = r.len() as u64;
+    let mut rl = r.len() as u64;            // shrinks when a range reader learns the total size
+    let mut clamp = spec.seek_clamp;
+    let mut range_l = spec.range_l;
+    let mut seeked = false;
     let mut p: u64 = 0; // logical position, may lie past the end after a seek
     for (idx, (name, n)) in ops.iter().enumerate() {
         let n = *n;
+        // "reads": n = count << 24 | size, a run of plain reads of one size (long histories stay short in the case text)
+        if name == "reads" {
+            let (cnt, sz) = ((n >> 24) as usize, (n & 0xFF_FFFF) as i64);
+            for j in 0..cnt {
+                let out = rd.op("read", sz);
+                let left = rl.saturating_sub(p);
+                match out {
+                    Out::Bytes(b) => {
+                        let h: &[u8] = if p >= rl { &[] } else { &r[p as usize..(p as usize + b.len()).min(rl as usize)] };
+                        if b.len() as i64 > sz || b.len() as u64 > left || b[..] != *h { return Err(format!("op {} (reads), read #{} of {} bytes at logical position {} of {}: returned {} bytes that differ from the stream", idx, j, sz, p, rl, b.len())); }
+                        if b.is_empty() && sz > 0 && left > 0 { return Err(format!("op {} (reads), read #{} of {} bytes at logical position {} of {}: reported end of stream although bytes remain", idx, j, sz, p, rl)); }
+                        p += b.len() as u64;
+                    }
+                    Out::Err(e) => return Err(format!("op {} (reads), read #{} of {} bytes at logical position {} of {}: failed: {}", idx, j, sz, p, rl, e)),
+                    o => return Err(format!("op {} (reads): unexpected outcome {:?}", idx, o)),
+                }
+            }
+            obs.push(((name.clone(), n), Out::Unsupported));
+            continue;
+        }
         let out = rd.op(name, n);
         obs.push(((name.clone(), n), out.clone()));
         let at = |m: String| format!("op {} ({} {}), logical position {} of {}: {}", idx, name, n, p, rl, m);
         let left = rl.saturating_sub(p);
-        let here = |k: usize| -> &[u8] { if p >= rl { &[] } else { &r[p as usize..(p as usize + k).min(r.len())] } };
+        let here = |k: usize| -> &[u8] { if p >= rl { &[] } else { &r[p as usize..(p as usize + k).min(rl as usize)] } };
         match (name.as_str(), out) {
             (_, Out::Unsupported) => {}
-            ("read" | "simd" | "bulk" | "opt" | "consume", Out::Bytes(b)) if !(spec.exact_reads && name == "read") => {
+            ("read" | "simd" | "bulk" | "opt" | "consume" | "vec" | "direct", Out::Bytes(b)) if !(spec.exact_reads && name == "read") => {
+                if name == "direct" { seeked = true; } // bytes taken behind the wrapper's back are not in its counters
                 if b.len() as i64 > n { return Err(at(format!("returned {} bytes", b.len()))); }
-                if b.len() as u64 > left || b[..] != *here(b.len()) { return Err(at(format!("returned {:?}, the stream has {:?}", b, here(b.len())))); }
+                if b.len() as u64 > left || b[..] != *here(b.len()) { return Err(at(format!("returned {:?}, the stream has {:?}", &b[..b.len().min(32)], &here(b.len())[..here(b.len()).len().min(32)]))); }
                 if b.is_empty() && n > 0 && left > 0 { return Err(at("reported end of stream although bytes remain".into())); }
                 p += b.len() as u64;
             }
             ("read" | "exact" | "slice" | "zslice" | "byte", Out::Bytes(b)) => {
                 let want = if name == "byte" { 1 } else { n as usize };
                 if b.len() != want { return Err(at(format!("returned {} bytes", b.len()))); }
-                if want as u64 > left || b[..] != *here(want) { return Err(at(format!("returned {:?}, the stream has {:?}", b, here(want)))); }
+                if want as u64 > left || b[..] != *here(want) { return Err(at(format!("returned {:?}, the stream has {:?}", &b[..b.len().min(32)], &here(want)[..here(want).len().min(32)]))); }
                 p += want as u64;
             }
             ("exact" | "slice" | "zslice" | "byte" | "read", Out::Err(e)) if name != "read" || spec.exact_reads => {
@@ -251,7 +449,7 @@ pub fn drive(rd: &mut dyn Rd, spec: &Spec, ops: &[Op], obs: &mut Vec<(Op, Out)>)
             }
             ("slice", Out::Nothing) => { if n as u64 <= left && n as usize <= spec.cap { return Err(at("no data although the bytes exist and fit the buffer".into())); } }
             ("peek" | "zpeek" | "fill_buf", Out::Peek(b)) => {
-                if b.len() as u64 > left || b[..] != *here(b.len()) { return Err(at(format!("showed {:?}, the stream has {:?}", b, here(b.len())))); }
+                if b.len() as u64 > left || b[..] != *here(b.len()) { return Err(at(format!("showed {:?}, the stream has {:?}", &b[..b.len().min(32)], &here(b.len())[..here(b.len()).len().min(32)]))); }
                 if name == "fill_buf" { if b.is_empty() && left > 0 { return Err(at("fill_buf is empty although bytes remain".into())); } }
                 else {
                     if b.len() as i64 > n { return Err(at(format!("showed {} bytes", b.len()))); }
@@ -265,23 +463,53 @@ pub fn drive(rd: &mut dyn Rd, spec: &Spec, ops: &[Op], obs: &mut Vec<(Op, Out)>)
             ("skip", Out::Skipped) => { if n as u64 > left { return Err(at("skipped past the end without an error".into())); } p += n as u64; }
             ("skip", Out::Err(e)) => { if n as u64 <= left { return Err(at(format!("failed although the bytes exist: {}", e))); } return Ok(()); }
             ("pos", Out::Pos(q)) => { if q != p { return Err(at(format!("reports position {}", q))); } }
+            ("inner_pos", Out::Pos(q)) => { if q != p { return Err(at(format!("the inner reader stands at {} (relative to the range start)", q))); } }
             ("reset", Out::Pos(_)) => p = 0,
             ("seek_in", Out::Pos(q)) => { if q != n as u64 { return Err(at(format!("returned {}", q))); } p = q; }
-            ("seek_in", Out::Err(_)) => { if (n as u64) < spec.seek_clamp.unwrap_or(0) { return Err(at("refused a position inside the range".into())); } }
+            ("seek_in", Out::Err(_)) => { if (n as u64) < clamp.unwrap_or(0) { return Err(at("refused a position inside the range".into())); } }
             ("seek_start" | "seek_cur" | "seek_end", Out::Pos(q)) => {
-                let end = spec.seek_clamp.unwrap_or(rl) as i128;
+                seeked = true;
+                let end = clamp.unwrap_or(rl) as i128;
                 let tgt: i128 = match name.as_str() { "seek_start" => n as i128, "seek_cur" => p as i128 + n as i128, _ => end + n as i128 };
-                let want = match spec.seek_clamp { Some(l) => tgt.clamp(0, l as i128), None => tgt };
+                let want = match clamp { Some(l) => tgt.clamp(0, l as i128), None => tgt };
                 if want < 0 { return Err(at(format!("seek before the start succeeded with {}", q))); }
                 if q as i128 != want { return Err(at(format!("seek returned {}, want {}", q, want))); }
                 p = q;
             }
             ("seek_start" | "seek_cur" | "seek_end", Out::Err(e)) => {
-                let end = spec.seek_clamp.unwrap_or(rl) as i128;
+                let end = clamp.unwrap_or(rl) as i128;
                 let tgt: i128 = match name.as_str() { "seek_start" => n as i128, "seek_cur" => p as i128 + n as i128, _ => end + n as i128 };
-                if spec.seek_clamp.is_some() || (tgt >= 0 && tgt <= rl as i128) { return Err(at(format!("seek failed: {}", e))); }
+                if clamp.is_some() || (tgt >= 0 && tgt <= rl as i128) { return Err(at(format!("seek failed: {}", e))); }
                 return Ok(()); // refused an out-of-range target: later position is unspecified for pass-through seeks
             }
+            // the buffered bytes are the next bytes of the stream: their UTF-8 verdict / CRC32C is that of the stream slice
+            ("utf8", Out::Flag(f, k)) => {
+                if k as u64 > left { return Err(at(format!("claims {} buffered bytes", k))); }
+                let want = std::str::from_utf8(here(k)).is_ok();
+                if f != want { return Err(at(format!("validates its {} buffered bytes as {}, they are {}valid UTF-8", k, f, if want { "" } else { "in" }))); }
+            }
+            ("crc" | "vcrc", Out::Crc(c, k)) => {
+                if k as u64 > left { return Err(at(format!("claims {} buffered bytes", k))); }
+                if k > 0 && c != crc32c_ref(here(k)) { return Err(at(format!("CRC32C of its {} buffered bytes = {:#x}, want {:#x}", k, c, crc32c_ref(here(k))))); }
+            }
+            ("usage", Out::Info(v)) => match spec.kind {
+                0 | 1 | 10 | 11 => {
+                    if v[0] > left { return Err(at(format!("claims {} buffered bytes", v[0]))); }
+                    if (v[1] == 1) != (v[0] > 0) { return Err(at(format!("has_data_in_buffer() = {} with buffer_usage() = {}", v[1], v[0]))); }
+                    if !seeked && v[2].wrapping_sub(v[0]) != p { return Err(at(format!("total_read() {} - buffer_usage() {} is not the number of bytes handed out", v[2], v[0]))); }
+                }
+                6 => { if v[0] != left || v[1] != left || v[2] != left || v[3] != here(1).first().map(|&b| b as u64 + 1).unwrap_or(0) || v[4] != rl || (v[5] == 1) != (rl == 0) { return Err(at(format!("accessors report {:?} with {} bytes left", v, left))); } }
+                7 => { if v[0] != left || v[1] != rl || (v[2] == 1) != (rl == 0) { return Err(at(format!("remaining/len/is_empty report {:?} with {} of {} bytes left", v, left, rl))); } }
+                _ => { if v[0] > left { return Err(at(format!("claims {} buffered bytes", v[0]))); } }
+            },
+            ("rinfo", Out::Info(v)) => {
+                let rem = range_l.saturating_sub(p);
+                let prog = if range_l == 0 { 1e6 } else { p as f64 / range_l as f64 * 1e6 };
+                if v[0] != p || v[1] != rem || v[2] != range_l || (v[3] == 1) != (p >= range_l) || (v[4] == 1) != (p < range_l) || v[5].abs_diff(prog.round() as u64) > 2 || v[6] != range_l {
+                    return Err(at(format!("accessors [position, remaining, range_length, is_at_end, has_remaining, progress*1e6, end-start] = {:?}, range length {}", v, range_l)));
+                }
+            }
+            ("set_total", Out::Skipped) => { let n = n as u64; if n < range_l { range_l = n; rl = rl.min(n); if clamp.is_some() { clamp = Some(n); } } }
             (_, Out::Err(e)) => return Err(at(format!("failed: {}", e))),
             (_, o) => return Err(at(format!("unexpected outcome {:?}", o))),
         }
@@ -289,13 +517,21 @@ pub fn drive(rd: &mut dyn Rd, spec: &Spec, ops: &[Op], obs: &mut Vec<(Op, Out)>)
     Ok(())
 }
 
-pub fn reader(cx: &mut Ctx, kind: usize, data: &[u8], cfg: &[u64], ops: &[Op], force: bool) {
+pub fn reader(cx: &mut Ctx, kind: usize, data: &[u8], cfg: &[u64], ops: &[Op], force: bool) { reader_g(cx, kind, data, None, cfg, ops, force) }
+/// `gen` = Some((n, seed, mode)): the data is `gen_data(n, seed, mode)` and the case names it that way.
+pub fn reader_g(cx: &mut Ctx, kind: usize, data: &[u8], gen: Option<(usize, u64, u64)>, cfg: &[u64], ops: &[Op], force: bool) {
     let kind = kind % N_RKIND;
     let cell = format!("reader/{}", rkind_name(kind));
-    let cj = json!({"cell": "reader", "kind": kind, "data": data, "cfg": cfg, "ops": ops_json(ops)});
+    let cj = match gen {
+        Some((n, seed, mode)) => json!({"cell": "reader", "kind": kind, "gen": [n, seed, mode], "cfg": cfg, "ops": ops_json(ops)}),
+        None => json!({"cell": "reader", "kind": kind, "data": data, "cfg": cfg, "ops": ops_json(ops)}),
+    };
     if !cx.gate(&cj) { return; }
     cx.sum.eval(&cell, &cj.to_string(), ops.len() >= 3);
     cx.sum.dist_max("reader_max_ops", ops.len() as u64);
+    if gen.is_some() { cx.sum.dist("reader_big_input"); }
+    if kind >= 6 { cx.sum.cell_status(&cell, "S-only"); }
+    for (name, _) in ops { if matches!(name.as_str(), "vec" | "utf8" | "crc" | "vcrc" | "usage" | "rinfo" | "set_total" | "inner_pos" | "add_range" | "next_range" | "minfo" | "reads" | "direct") { cx.sum.dist(&format!("reader_op_{}", name)); } }
     let mut obs = vec![];
     let r = guarded(|| -> Result<(), String> {
         let (mut rd, spec) = match build(cx, kind, data, cfg) { Ok(x) => x, Err(e) if e.starts_with("skip:") => return Ok(()), Err(e) => return Err(format!("constructor failed: {}", e)) };
@@ -311,67 +547,109 @@ pub fn reader(cx: &mut Ctx, kind: usize, data: &[u8], cfg: &[u64], ops: &[Op], f
 // ------------------------------------------------------------------------------------------
 // writers
 // ------------------------------------------------------------------------------------------
-pub const N_WKIND: usize = 5;
-pub fn wkind_name(k: usize) -> &'static str { ["sbw", "sbw_chunky", "zcw", "zcw_chunky", "range_writer"][k % N_WKIND] }
+pub const N_WKIND: usize = 11;
+pub fn wkind_name(k: usize) -> &'static str {
+    ["sbw", "sbw_chunky", "zcw", "zcw_chunky", "range_writer", "sbw_seek", "range_writer_seek", "mmap_out", "sbw_default", "zcw_default", "zc_buffer"][k % N_WKIND]
+}
 
 fn payload(counter: &mut u64, n: usize) -> Vec<u8> { (0..n).map(|_| { *counter += 1; (*counter * 31 + (*counter >> 8)) as u8 }).collect() }
 
-/// cfg: [cap, bulk, chunk, start, len, prefill]
+/// Generic driver over io::Write; operations the writer kind adds come through `ext` (Some(true) = the payload was accepted).
+fn run_w<W: Write>(w: &mut W, ops: &[Op], accepted: &mut Vec<u8>, ctr: &mut u64, ext: &mut dyn FnMut(&mut W, &str, usize, &[u8], &[u8]) -> Result<Option<bool>, String>) -> Result<(), String> {
+    for (idx, (name, n)) in ops.iter().enumerate() {
+        match name.as_str() {
+            "write" => { let d = payload(ctr, *n as usize); let k = w.write(&d).map_err(|x| format!("op {} write({}) failed: {}", idx, n, x))?; if k > d.len() { return Err(format!("op {}: write accepted {} of {}", idx, k, d.len())); } accepted.extend_from_slice(&d[..k]); }
+            "write_all" => { let d = payload(ctr, *n as usize); w.write_all(&d).map_err(|x| format!("op {} write_all({}) failed: {}", idx, n, x))?; accepted.extend_from_slice(&d); }
+            "flush" => w.flush().map_err(|x| format!("op {} flush failed: {}", idx, x))?,
+            // VectoredIO::write_vectored of three buffers (the middle one empty): the first `total` bytes of the buffers, in order, were written
+            "vecw" => {
+                let d = payload(ctr, *n as usize);
+                let (a, c) = d.split_at(d.len() / 3);
+                let bufs = [std::io::IoSlice::new(a), std::io::IoSlice::new(&[]), std::io::IoSlice::new(c)];
+                let k = zipora::io::VectoredIO::write_vectored(w, &bufs).map_err(|x| format!("op {} write_vectored({}) failed: {}", idx, n, x))?;
+                if k > d.len() { return Err(format!("op {}: write_vectored accepted {} of {}", idx, k, d.len())); }
+                accepted.extend_from_slice(&d[..k]);
+            }
+            other => { let d = payload(ctr, *n as usize); if let Some(true) = ext(w, other, *n as usize, &d, accepted).map_err(|x| format!("op {} ({} {}): {}", idx, other, n, x))? { accepted.extend_from_slice(&d); } }
+        }
+    }
+    Ok(())
+}
+
+/// cfg: [cap, bulk, chunk, start, len, prefill, variant]
 pub fn writer(cx: &mut Ctx, kind: usize, cfg: &[u64], ops: &[Op]) {
     let kind = kind % N_WKIND;
     let cell = format!("writer/{}", wkind_name(kind));
     let cj = json!({"cell": "writer", "kind": kind, "cfg": cfg, "ops": ops_json(ops)});
     if !cx.gate(&cj) { return; }
     cx.sum.eval(&cell, &cj.to_string(), ops.len() >= 3);
+    cx.sum.cell_status(&cell, "S-only");
+    for (name, _) in ops { if matches!(name.as_str(), "vecw" | "zc_ensure" | "winfo" | "seek_start" | "seek_cur" | "seek_end" | "truncate") { cx.sum.dist(&format!("writer_op_{}", name)); } }
     let cap = g(cfg, 0, 8) as usize;
     let bulk = (g(cfg, 1, 8192) as usize).max(1);
     let chunk = g(cfg, 2, 1).max(1) as usize;
+    let path = format!("{}/wr_{}.bin", cx.tmp, kind);
     let e = |x: zipora::ZiporaError| x.to_string();
     let r = guarded(|| -> Result<(), String> {
         let mut accepted: Vec<u8> = vec![];
         let mut ctr = 0u64;
-        // generic driver over io::Write (+ optional zero-copy interface)
-        fn run<W: Write>(w: &mut W, ops: &[Op], accepted: &mut Vec<u8>, ctr: &mut u64, zc: &mut dyn FnMut(&mut W, usize, &[u8]) -> Result<Option<bool>, String>) -> Result<(), String> {
-            for (idx, (name, n)) in ops.iter().enumerate() {
-                match name.as_str() {
-                    "write" => { let d = payload(ctr, *n as usize); let k = w.write(&d).map_err(|x| format!("op {} write({}) failed: {}", idx, n, x))?; if k > d.len() { return Err(format!("op {}: write accepted {} of {}", idx, k, d.len())); } accepted.extend_from_slice(&d[..k]); }
-                    "write_all" => { let d = payload(ctr, *n as usize); w.write_all(&d).map_err(|x| format!("op {} write_all({}) failed: {}", idx, n, x))?; accepted.extend_from_slice(&d); }
-                    "flush" => w.flush().map_err(|x| format!("op {} flush failed: {}", idx, x))?,
-                    "zc" => { let d = payload(ctr, *n as usize); if let Some(true) = zc(w, *n as usize, &d)? { accepted.extend_from_slice(&d); } }
-                    _ => {}
-                }
-            }
-            Ok(())
-        }
         let got: Vec<u8> = match kind {
-            0 | 1 => {
-                let sc = sb_cfg(cap.max(1), cap.max(1), true, 2, bulk, 2.0, false);
-                let mut none = |_: &mut StreamBufferedWriter<ChunkyW>, _: usize, _: &[u8]| -> Result<Option<bool>, String> { Ok(None) };
-                let mut w = StreamBufferedWriter::with_config(ChunkyW { inner: vec![], k: if kind == 1 { chunk } else { usize::MAX } }, sc).map_err(e)?;
-                // single bytes through the fast path are part of the same stream
-                let mut ops2 = vec![];
-                for (name, n) in ops { if name == "byte" { run(&mut w, &ops2, &mut accepted, &mut ctr, &mut none)?; ops2.clear(); let d = payload(&mut ctr, 1); w.write_byte_fast(d[0]).map_err(e)?; accepted.push(d[0]); let _ = n; } else { ops2.push((name.clone(), *n)); } }
-                run(&mut w, &ops2, &mut accepted, &mut ctr, &mut none)?;
-                w.into_inner().map_err(|x| x.to_string())?.inner
-            }
-            2 | 3 => {
-                let mut zc = |w: &mut ZeroCopyWriter<ChunkyW>, n: usize, d: &[u8]| -> Result<Option<bool>, String> {
-                    match w.zc_write(n).map_err(|x| x.to_string())? { Some(s) => { if s.len() != n { return Err(format!("zc_write({}) handed out {} bytes", n, s.len())); } s.copy_from_slice(d); } None => return Ok(Some(false)) }
-                    w.zc_commit(n).map_err(|x| x.to_string())?;
-                    Ok(Some(true))
+            0 | 1 | 8 => {
+                let mut none = |w: &mut StreamBufferedWriter<ChunkyW>, name: &str, _: usize, d: &[u8], acc: &[u8]| -> Result<Option<bool>, String> {
+                    match name {
+                        // single bytes through the fast path are part of the same stream
+                        "byte" => { w.write_byte_fast(d.first().copied().unwrap_or(0)).map_err(|x| x.to_string())?; Ok(Some(!d.is_empty())) }
+                        // after a flush the destination is up to date: bytes written to it directly (get_mut) come next in the stream
+                        "direct" => { w.flush().map_err(|x| x.to_string())?; w.get_mut().write_all(d).map_err(|x| x.to_string())?; Ok(Some(true)) }
+                        // what reached the destination plus what is still buffered is what was accepted
+                        "winfo" => {
+                            if w.get_ref().inner.len() + w.buffer_usage() != acc.len() { return Err(format!("{} bytes at the destination + buffer_usage() {} != {} bytes accepted", w.get_ref().inner.len(), w.buffer_usage(), acc.len())); }
+                            if w.total_written() > acc.len() as u64 { return Err(format!("total_written() = {} with {} bytes accepted", w.total_written(), acc.len())); }
+                            if w.get_ref().inner[..] != acc[..w.get_ref().inner.len().min(acc.len())] || w.get_ref().inner.len() > acc.len() { return Err("the destination does not hold a prefix of the accepted bytes".into()); }
+                            Ok(None)
+                        }
+                        _ => Ok(None),
+                    }
                 };
-                let mut w = ZeroCopyWriter::with_capacity(ChunkyW { inner: vec![], k: if kind == 3 { chunk } else { usize::MAX } }, cap).map_err(e)?;
-                run(&mut w, ops, &mut accepted, &mut ctr, &mut zc)?;
+                let dest = ChunkyW { inner: vec![], k: if kind == 1 || (kind == 8 && g(cfg, 2, 0) > 0) { chunk } else { usize::MAX } };
+                let mut w = if kind == 8 { StreamBufferedWriter::new(dest).map_err(e)? } else { StreamBufferedWriter::with_config(dest, sb_cfg(cap.max(1), cap.max(1), true, 2, bulk, 2.0, false)).map_err(e)? };
+                // "byte" needs exactly one payload byte
+                let ops1: Vec<Op> = ops.iter().map(|(n, k)| if n == "byte" { (n.clone(), 1) } else { (n.clone(), *k) }).collect();
+                run_w(&mut w, &ops1, &mut accepted, &mut ctr, &mut none)?;
                 w.into_inner().map_err(|x| x.to_string())?.inner
             }
-            _ => {
+            2 | 3 | 9 => {
+                let cap_eff = if kind == 9 { 64 * 1024 } else { cap };
+                let mut zc = |w: &mut ZeroCopyWriter<ChunkyW>, name: &str, n: usize, d: &[u8], _: &[u8]| -> Result<Option<bool>, String> {
+                    match name {
+                        "zc" => {
+                            match w.zc_write(n).map_err(|x| x.to_string())? { Some(s) => { if s.len() != n { return Err(format!("zc_write({}) handed out {} bytes", n, s.len())); } s.copy_from_slice(d); } None => { if n <= cap_eff { return Err(format!("zc_write({}) refused although the buffer holds {}", n, cap_eff)); } return Ok(Some(false)); } }
+                            w.zc_commit(n).map_err(|x| x.to_string())?;
+                            Ok(Some(true))
+                        }
+                        "zc_ensure" => {
+                            let k = w.zc_ensure_write(n).map_err(|x| x.to_string())?;
+                            if k > n || k > w.zc_write_available() || (n <= cap_eff && k != n) { return Err(format!("zc_ensure_write({}) = {} with {} bytes of space (capacity {})", n, k, w.zc_write_available(), cap_eff)); }
+                            Ok(None)
+                        }
+                        "direct" => { w.flush().map_err(|x| x.to_string())?; w.get_mut().write_all(d).map_err(|x| x.to_string())?; if w.get_ref().inner.len() < d.len() { return Err("get_ref after get_mut".into()); } Ok(Some(true)) }
+                        "winfo" => { if w.zc_write_available() > cap_eff { return Err(format!("zc_write_available() = {} in a {}-byte buffer", w.zc_write_available(), cap_eff)); } Ok(None) }
+                        _ => Ok(None),
+                    }
+                };
+                let dest = ChunkyW { inner: vec![], k: if kind == 3 || (kind == 9 && g(cfg, 2, 0) > 0) { chunk } else { usize::MAX } };
+                let mut w = if kind == 9 { ZeroCopyWriter::new(dest).map_err(e)? } else { ZeroCopyWriter::with_capacity(dest, cap).map_err(e)? };
+                run_w(&mut w, ops, &mut accepted, &mut ctr, &mut zc)?;
+                w.into_inner().map_err(|x| x.to_string())?.inner
+            }
+            4 => {
                 let (start, len, pre) = (g(cfg, 3, 0), g(cfg, 4, 16), g(cfg, 5, 32) as usize);
                 let orig: Vec<u8> = (0..pre).map(|x| 0xA0u8 ^ (x as u8)).collect();
-                let mut none = |_: &mut RangeWriter<Cursor<Vec<u8>>>, _: usize, _: &[u8]| -> Result<Option<bool>, String> { Ok(None) };
+                let mut none = |_: &mut RangeWriter<Cursor<Vec<u8>>>, _: &str, _: usize, _: &[u8], _: &[u8]| -> Result<Option<bool>, String> { Ok(None) };
                 let mut w = RangeWriter::new_and_seek(Cursor::new(orig.clone()), start, len).map_err(e)?;
                 // writes past the range end are refused (0 bytes), never spill over
-                let only_write: Vec<Op> = ops.iter().filter(|(n, _)| n == "write" || n == "flush").cloned().collect();
-                run(&mut w, &only_write, &mut accepted, &mut ctr, &mut none)?;
+                let only_write: Vec<Op> = ops.iter().filter(|(n, _)| n == "write" || n == "flush" || n == "vecw").cloned().collect();
+                run_w(&mut w, &only_write, &mut accepted, &mut ctr, &mut none)?;
                 if accepted.len() as u64 > len { return Err(format!("range writer accepted {} bytes into a {}-byte range", accepted.len(), len)); }
                 if w.bytes_written() != accepted.len() as u64 || w.remaining() != len - accepted.len() as u64 { return Err("range writer counters".into()); }
                 let out = w.into_inner().into_inner();
@@ -386,6 +664,10 @@ pub fn writer(cx: &mut Ctx, kind: usize, cfg: &[u64], ops: &[Op]) {
                 }
                 return Ok(());
             }
+            5 => return sbw_seek(cfg, ops),
+            6 => return range_writer_seek(cfg, ops),
+            7 => return mmap_out(&path, cfg, ops),
+            _ => return zc_buffer(cfg, ops),
         };
         if got != accepted { return Err(format!("destination holds {} bytes {:?}, the writer accepted {} bytes {:?}", got.len(), &got[..got.len().min(40)], accepted.len(), &accepted[..accepted.len().min(40)])); }
         Ok(())
@@ -395,6 +677,217 @@ pub fn writer(cx: &mut Ctx, kind: usize, cfg: &[u64], ops: &[Op]) {
         Ok(Err(why)) => cx.sum.fail(&cell, None, cj, &why),
         Ok(Ok(())) => {}
     }
+}
+
+fn seek_of(name: &str, n: i64) -> Option<SeekFrom> {
+    Some(match name { "seek_start" => SeekFrom::Start(n.max(0) as u64), "seek_cur" => SeekFrom::Current(n), "seek_end" => SeekFrom::End(n), _ => return None })
+}
+
+/// StreamBufferedWriter over a seekable destination against an unbuffered cursor that receives the same accepted bytes and seeks.
+fn sbw_seek(cfg: &[u64], ops: &[Op]) -> Result<(), String> {
+    let cap = (g(cfg, 0, 8) as usize).max(1);
+    let bulk = (g(cfg, 1, 8192) as usize).max(1);
+    let pre: Vec<u8> = (0..g(cfg, 5, 0) as usize).map(|x| 0x50u8 ^ (x as u8)).collect();
+    let mut w = StreamBufferedWriter::with_config(Cursor::new(pre.clone()), sb_cfg(cap, cap, true, 2, bulk, 2.0, false)).map_err(|x| x.to_string())?;
+    let mut shadow = Cursor::new(pre);
+    let mut ctr = 0u64;
+    for (idx, (name, n)) in ops.iter().enumerate() {
+        let at = |m: String| format!("op {} ({} {}): {}", idx, name, n, m);
+        if let Some(sf) = seek_of(name, *n) {
+            let (a, b) = (w.seek(sf), shadow.seek(sf));
+            match (a, b) {
+                (Ok(x), Ok(y)) => if x != y { return Err(at(format!("seek returned {}, an unbuffered writer is at {}", x, y))); },
+                (Err(_), Err(_)) => {}
+                (a, b) => return Err(at(format!("seek gave {:?}, an unbuffered writer {:?}", a.map_err(|x| x.to_string()), b.map_err(|x| x.to_string())))),
+            }
+            continue;
+        }
+        match name.as_str() {
+            "write" | "write_all" | "vecw" => {
+                let d = payload(&mut ctr, *n as usize);
+                let k = match name.as_str() {
+                    "write" => w.write(&d).map_err(|x| at(x.to_string()))?,
+                    "write_all" => { w.write_all(&d).map_err(|x| at(x.to_string()))?; d.len() }
+                    _ => { let (a, c) = d.split_at(d.len() / 3); zipora::io::VectoredIO::write_vectored(&mut w, &[std::io::IoSlice::new(a), std::io::IoSlice::new(&[]), std::io::IoSlice::new(c)]).map_err(|x| at(x.to_string()))? }
+                };
+                if k > d.len() { return Err(at(format!("accepted {} of {} bytes", k, d.len()))); }
+                if k > 0 { shadow.write_all(&d[..k]).unwrap(); }
+            }
+            "byte" => { let d = payload(&mut ctr, 1); w.write_byte_fast(d[0]).map_err(|x| at(x.to_string()))?; shadow.write_all(&d).unwrap(); }
+            "flush" => w.flush().map_err(|x| at(x.to_string()))?,
+            _ => {}
+        }
+    }
+    let got = w.into_inner().map_err(|x| x.to_string())?.into_inner();
+    let want = shadow.into_inner();
+    if got != want { return Err(format!("destination holds {} bytes {:?}, an unbuffered writer leaves {} bytes {:?}", got.len(), &got[..got.len().min(48)], want.len(), &want[..want.len().min(48)])); }
+    Ok(())
+}
+
+/// RangeWriter with seeks; the range lies inside the destination, so the result is the original with the written bytes laid over it.
+fn range_writer_seek(cfg: &[u64], ops: &[Op]) -> Result<(), String> {
+    let (start, len) = (g(cfg, 3, 0), g(cfg, 4, 16));
+    let end = start + len;
+    let orig: Vec<u8> = (0..(end + 1 + g(cfg, 5, 0) % 7) as usize).map(|x| 0xA0u8 ^ (x as u8)).collect();
+    let c = Cursor::new(orig.clone());
+    let e = |x: zipora::ZiporaError| x.to_string();
+    let mut w = match g(cfg, 6, 0) % 3 {
+        0 => RangeWriter::new_and_seek(c, start, len).map_err(e)?,
+        1 => { let mut c = c; c.set_position(start); RangeWriter::with_range(c, start, end) }
+        _ => zipora::io::range::writer(c, start, len).map_err(e)?,
+    };
+    let mut model = orig.clone();
+    let (mut cur, mut total) = (start, 0u64);
+    let mut ctr = 0u64;
+    for (idx, (name, n)) in ops.iter().enumerate() {
+        let at = |m: String| format!("op {} ({} {}), position {} in range [{}, {}): {}", idx, name, n, cur, start, end, m);
+        if let Some(sf) = seek_of(name, *n) {
+            let tgt: i128 = match sf { SeekFrom::Start(x) => start as i128 + x as i128, SeekFrom::Current(x) => cur as i128 + x as i128, SeekFrom::End(x) => end as i128 + x as i128 };
+            let want = tgt.clamp(start as i128, end as i128) as u64;
+            match w.seek(sf) { Ok(q) => { if q != want - start { return Err(at(format!("seek returned {}, want {}", q, want - start))); } cur = want; } Err(x) => return Err(at(format!("seek failed: {}", x))) }
+            continue;
+        }
+        match name.as_str() {
+            "write" | "vecw" => {
+                let d = payload(&mut ctr, *n as usize);
+                let k = if name == "write" { w.write(&d) } else { let (a, c) = d.split_at(d.len() / 3); zipora::io::VectoredIO::write_vectored(&mut w, &[std::io::IoSlice::new(a), std::io::IoSlice::new(&[]), std::io::IoSlice::new(c)]) }.map_err(|x| at(x.to_string()))?;
+                if k as u64 > end - cur || k > d.len() { return Err(at(format!("accepted {} bytes with {} left in the range", k, end - cur))); }
+                if k == 0 && !d.is_empty() && cur < end { return Err(at("accepted nothing although the range has room".into())); }
+                model[cur as usize..cur as usize + k].copy_from_slice(&d[..k]);
+                cur += k as u64;
+                total += k as u64;
+            }
+            "flush" => w.flush().map_err(|x| at(x.to_string()))?,
+            "winfo" => {
+                let got = (w.current_position(), w.remaining(), w.bytes_written(), w.is_at_end(), w.start_position(), w.end_position(), w.range_length());
+                if got != (cur, end - cur, total, cur >= end, start, end, len) { return Err(at(format!("accessors (current, remaining, bytes_written, at_end, start, end, length) = {:?}, {} bytes written", got, total))); }
+                if w.get_ref().position() != cur || w.get_mut().position() != cur { return Err(at(format!("the destination stands at {}", w.get_ref().position()))); }
+            }
+            _ => {}
+        }
+    }
+    let out = w.into_inner().into_inner();
+    if out != model { let i = out.iter().zip(model.iter()).position(|(a, b)| a != b).unwrap_or(out.len().min(model.len())); return Err(format!("destination ({} bytes) differs from the original overlaid with the writes ({} bytes) at byte {}", out.len(), model.len(), i)); }
+    Ok(())
+}
+
+/// MemoryMappedOutput (create / open, seek, write_slice and typed writes, truncate) against a plain byte vector.
+fn mmap_out(path: &str, cfg: &[u64], ops: &[Op]) -> Result<(), String> {
+    use zipora::io::{DataOutput, MemoryMappedOutput};
+    let e = |x: zipora::ZiporaError| x.to_string();
+    let init = g(cfg, 0, 0) as usize;
+    let opened = g(cfg, 6, 0) % 2 == 1;
+    let mut model: Vec<u8> = if opened { (0..init).map(|x| 0x33u8 ^ (x as u8).wrapping_mul(5)).collect() } else { vec![0; init] };
+    let mut o = if opened { std::fs::write(path, &model).map_err(|x| x.to_string())?; MemoryMappedOutput::open(path).map_err(e)? } else { MemoryMappedOutput::create(path, init).map_err(e)? };
+    let mut pos = 0usize;
+    let mut ctr = 0u64;
+    let mut exact = false; // the file length is known exactly only right after truncate()
+    for (idx, (name, n)) in ops.iter().enumerate() {
+        let at = |m: String| format!("op {} ({} {}), position {}: {}", idx, name, n, pos, m);
+        match name.as_str() {
+            "write" | "write_all" | "byte" | "zc" => {
+                let d = payload(&mut ctr, if name == "byte" { 1 } else { *n as usize });
+                match name.as_str() {
+                    "write" => o.write_slice(&d),
+                    "write_all" => o.write_bytes(&d),
+                    "byte" => o.write_u8(d[0]),
+                    _ => o.write_length_prefixed_bytes(&d),
+                }.map_err(|x| at(x.to_string()))?;
+                let mut enc = vec![];
+                if name == "zc" { let mut v = d.len() as u64; loop { let b = (v & 0x7f) as u8; v >>= 7; if v == 0 { enc.push(b); break; } enc.push(b | 0x80); } }
+                enc.extend_from_slice(&d);
+                if model.len() < pos + enc.len() { model.resize(pos + enc.len(), 0); }
+                model[pos..pos + enc.len()].copy_from_slice(&enc);
+                pos += enc.len();
+                if !enc.is_empty() { exact = false; }
+            }
+            "seek_start" => match o.seek(*n as usize) {
+                Ok(()) => { if *n as usize > o.capacity() { return Err(at(format!("seek beyond the capacity {} succeeded", o.capacity()))); } pos = *n as usize; if model.len() < pos { model.resize(pos, 0); exact = false; } }
+                Err(x) => { if *n as usize <= model.len() { return Err(at(format!("seek inside the written region failed: {}", x))); } }
+            },
+            "flush" => o.flush().map_err(|x| at(x.to_string()))?,
+            "truncate" => { o.truncate().map_err(|x| at(x.to_string()))?; model.truncate(pos); exact = true; }
+            "winfo" => {
+                if o.position() != pos || o.capacity() < model.len() || o.remaining() != o.capacity() - pos { return Err(at(format!("position() {} capacity() {} remaining() {} with {} bytes of content", o.position(), o.capacity(), o.remaining(), model.len()))); }
+            }
+            _ => {}
+        }
+    }
+    o.flush().map_err(e)?;
+    drop(o);
+    let f = std::fs::read(path).map_err(|x| x.to_string())?;
+    if f.len() < model.len() || (exact && f.len() != model.len()) { return Err(format!("the file has {} bytes, the content written has {}{}", f.len(), model.len(), if exact { " (truncated last)" } else { "" })); }
+    if f[..model.len()] != model[..] { let i = f.iter().zip(model.iter()).position(|(a, b)| a != b).unwrap(); return Err(format!("the file differs from the bytes written at offset {}: {} instead of {}", i, f[i], model[i])); }
+    if f[model.len()..].iter().any(|&b| b != 0) { return Err("the file has non-zero bytes beyond what was written".into()); }
+    Ok(())
+}
+
+/// ZeroCopyBuffer on its own: a FIFO of bytes (fill_from / zc_write+commit in, drain_to / zc_read+advance out, compact, reset).
+fn zc_buffer(cfg: &[u64], ops: &[Op]) -> Result<(), String> {
+    use zipora::io::ZeroCopyBuffer;
+    let cap = g(cfg, 0, 8) as usize;
+    let mut b = if g(cfg, 6, 0) % 2 == 1 { ZeroCopyBuffer::with_secure_pool(cap) } else { ZeroCopyBuffer::new(cap) }.map_err(|x| x.to_string())?;
+    let mut q: std::collections::VecDeque<u8> = Default::default();
+    let mut ctr = 0u64;
+    for (idx, (name, n)) in ops.iter().enumerate() {
+        let n = *n as usize;
+        let ql0 = q.len();
+        let at = move |m: String| format!("op {} ({} {}), {} bytes queued before it, capacity {}: {}", idx, name, n, ql0, cap, m);
+        let front = |q: &std::collections::VecDeque<u8>, k: usize| -> Vec<u8> { q.iter().take(k).copied().collect() };
+        match name.as_str() {
+            "write" | "fill" => {
+                let d = payload(&mut ctr, n);
+                let mut src = &d[..];
+                let k = b.fill_from(&mut src).map_err(|x| at(x.to_string()))?;
+                if k > n || src.len() != n - k { return Err(at(format!("fill_from reports {} bytes, the source gave {}", k, n - src.len()))); }
+                if k == 0 && n > 0 && q.len() < cap { return Err(at("took nothing although there is room".into())); }
+                if q.len() + k > cap { return Err(at(format!("holds {} bytes", q.len() + k))); }
+                q.extend(&d[..k]);
+            }
+            "write_all" | "drain" => {
+                let mut w = ChunkyW { inner: vec![], k: n.max(1) };
+                let k = b.drain_to(&mut w).map_err(|x| at(x.to_string()))?;
+                if k != w.inner.len() || k > q.len() || w.inner != front(&q, k) { return Err(at(format!("drained {:?}, the queue starts with {:?}", &w.inner[..w.inner.len().min(24)], front(&q, k.min(24))))); }
+                if k == 0 && !q.is_empty() { return Err(at("drained nothing although bytes are queued".into())); }
+                q.drain(..k);
+            }
+            "zc" => {
+                let d = payload(&mut ctr, n);
+                let room = b.write_available();
+                match b.zc_write(n).map_err(|x| at(x.to_string()))? {
+                    Some(s) => { if s.len() != n || n > room { return Err(at(format!("zc_write handed out {} bytes with {} of space", s.len(), room))); } s.copy_from_slice(&d); b.zc_commit(n).map_err(|x| at(x.to_string()))?; q.extend(&d); }
+                    None => if n <= room { return Err(at(format!("zc_write refused although write_available() = {}", room))); },
+                }
+            }
+            "byte" | "zcr" => {
+                let k = if name == "byte" { 1 } else { n };
+                match b.zc_read(k).map_err(|x| at(x.to_string()))? {
+                    Some(s) => { if k > q.len() || s != &front(&q, k)[..] { return Err(at(format!("zc_read showed {:?}, the queue starts with {:?}", &s[..s.len().min(24)], front(&q, k.min(24))))); } b.zc_advance(k).map_err(|x| at(x.to_string()))?; q.drain(..k); }
+                    None => if k <= q.len() { return Err(at("zc_read refused although the bytes are queued".into())); },
+                }
+            }
+            "flush" | "compact" => { b.compact(); if b.read_position() != 0 || b.write_position() != q.len() { return Err(at(format!("after compact: read_position {} write_position {}", b.read_position(), b.write_position()))); } }
+            "truncate" | "reset" => { b.reset(); q.clear(); }
+            "zc_ensure" => {
+                let k = b.zc_ensure_write(n).map_err(|x| at(x.to_string()))?;
+                if k > n || k != b.write_available().min(n) || k < n.min(cap - q.len()) { return Err(at(format!("zc_ensure_write = {} with write_available() {}", k, b.write_available()))); }
+            }
+            "seek_start" => { // an advance beyond the queued bytes is refused and changes nothing
+                if b.zc_advance(q.len() + 1 + n % 3).is_ok() { return Err(at("zc_advance beyond the queued bytes succeeded".into())); }
+                if b.zc_commit(b.write_available() + 1).is_ok() { return Err(at("zc_commit beyond the capacity succeeded".into())); }
+            }
+            _ => {}
+        }
+        // after every operation: the readable bytes are the queue
+        let all = front(&q, q.len());
+        if b.available() != q.len() || b.readable_slice() != &all[..] || b.is_empty() != q.is_empty() || b.zc_available() != q.len() || b.capacity() != cap {
+            return Err(at(format!("holds {} bytes {:?}, the queue has {} bytes {:?}", b.available(), &b.readable_slice()[..b.available().min(24)], q.len(), &all[..all.len().min(24)])));
+        }
+        if b.is_full() != (b.write_position() == cap) || b.write_available() != cap - b.write_position() || b.zc_write_available() != b.write_available() || b.zc_ensure(n).ok() != Some(q.len().min(n)) || b.writable_slice().len() != b.write_available() {
+            return Err(at("space accessors disagree with each other".into()));
+        }
+    }
+    Ok(())
 }
 
 // ------------------------------------------------------------------------------------------
@@ -408,25 +901,44 @@ pub fn gen_sizes(r: &mut Rng, cap: usize) -> i64 {
 }
 pub fn gen_reader_case(r: &mut Rng, kind: usize) -> (Vec<u8>, Vec<u64>, Vec<Op>) {
     let kind = kind % N_RKIND;
+    if kind >= 11 { return gen_preset_case(r, kind); }
     let cap = *r.pick(&[1usize, 2, 3, 4, 5, 8, 16]);
     let dl = match r.below(6) { 0 => 0, 1 => cap, 2 => cap + 1, 3 => 4 * cap + 3, 4 => r.below(20) as usize, _ => r.below(12 * cap as u64 + 2) as usize };
     // MemoryMappedInput switches from buffered I/O to a memory map above 4096 bytes
     let dl = if kind == 7 && r.chance(1, 2) { *r.pick(&[4000usize, 4095, 4096, 4097, 4200, 4500]) } else { dl };
-    let data: Vec<u8> = (0..dl).map(|i| (i as u8).wrapping_mul(13).wrapping_add(r.below(3) as u8)).collect();
+    let mut data: Vec<u8> = (0..dl).map(|i| (i as u8).wrapping_mul(13).wrapping_add(r.below(3) as u8)).collect();
     let max = *r.pick(&[cap, cap, cap + 1, 2 * cap, 4 * cap + 1, 64]);
     let start = match r.below(4) { 0 => 0, 1 => r.below(dl as u64 + 2), _ => r.below(dl as u64 / 2 + 1) };
     let len = match r.below(5) { 0 => 0, 1 => dl as u64, 2 => u64::MAX, _ => r.below(dl as u64 + 3) };
     let mut cfg = vec![cap as u64, max as u64, r.below(2), 1 + r.below(4), *r.pick(&[1u64, 2, 4, 8, 8192, 8192]), r.below(2), 1 + r.below(3), start, len, r.chance(1, 10) as u64];
     if kind == 8 { for _ in 0..r.below(5) { let a = r.below(dl as u64 + 1); let b = a + r.below(dl as u64 + 2 - a.min(dl as u64)); cfg.push(a); cfg.push(b.min(dl as u64)); } }
-    let names: &[&str] = match kind {
-        0 => &["read", "read", "read", "byte", "slice", "ensure", "simd", "bulk", "fill_buf", "consume", "exact", "seek_start", "seek_cur", "seek_cur", "seek_end"],
-        1 | 10 => &["read", "read", "read", "byte", "slice", "ensure", "simd", "bulk", "fill_buf", "consume", "exact"],
-        2 => &["read", "read", "read", "skip", "byte", "slice", "pos", "exact", "seek_start", "seek_cur", "seek_end", "reset", "seek_in"],
-        3 | 9 => &["read", "read", "read", "skip", "byte", "slice", "pos", "exact"],
-        4 | 5 => &["read", "read", "read", "peek", "skip", "opt", "ensure", "slice", "exact"],
-        6 => &["read", "read", "peek", "slice", "skip", "seek_start", "pos", "ensure", "exact"],
-        7 => &["read", "slice", "zslice", "peek", "zpeek", "skip", "seek_start", "byte", "pos"],
-        _ => &["read", "read", "exact"],
+    // the widened half of the cases: text content (the buffered bytes are judged as UTF-8), non-default page alignment,
+    // the other constructors, and the operations the Coq model does not know
+    let ext = r.chance(1, 2);
+    if ext {
+        if r.chance(1, 2) { data = gen_data(dl, r.next(), 1 + r.below(2)); }
+        if kind != 8 {
+            cfg.push(if matches!(kind, 0 | 1 | 9 | 10) && r.chance(1, 2) { r.below(ALIGNMENTS.len() as u64) } else { 0 });
+            cfg.push(match kind { 2 => r.below(4) * r.below(2), 3 => r.below(2), 7 => r.below(12), _ => 0 });
+        }
+    }
+    let names: &[&str] = match (kind, ext) {
+        (0, false) => &["read", "read", "read", "byte", "slice", "ensure", "simd", "bulk", "fill_buf", "consume", "exact", "seek_start", "seek_cur", "seek_cur", "seek_end"],
+        (0, true) => &["read", "read", "read", "byte", "slice", "ensure", "simd", "bulk", "fill_buf", "consume", "exact", "seek_start", "seek_cur", "seek_end", "vec", "vec", "utf8", "utf8", "usage", "direct"],
+        (1 | 10, false) => &["read", "read", "read", "byte", "slice", "ensure", "simd", "bulk", "fill_buf", "consume", "exact"],
+        (1 | 10, true) => &["read", "read", "read", "byte", "slice", "ensure", "simd", "bulk", "fill_buf", "consume", "exact", "vec", "vec", "utf8", "utf8", "usage", "direct"],
+        (2, false) => &["read", "read", "read", "skip", "byte", "slice", "pos", "exact", "seek_start", "seek_cur", "seek_end", "reset", "seek_in"],
+        (2, true) => &["read", "read", "read", "skip", "byte", "slice", "pos", "exact", "seek_start", "seek_cur", "seek_end", "reset", "seek_in", "vec", "rinfo", "rinfo", "set_total", "inner_pos", "inner_pos"],
+        (3 | 9, false) => &["read", "read", "read", "skip", "byte", "slice", "pos", "exact"],
+        (3 | 9, true) => &["read", "read", "read", "skip", "byte", "slice", "pos", "exact", "vec", "rinfo", "rinfo", "set_total"],
+        (4 | 5, false) => &["read", "read", "read", "peek", "skip", "opt", "ensure", "slice", "exact"],
+        (4 | 5, true) => &["read", "read", "read", "peek", "skip", "opt", "ensure", "slice", "exact", "vec", "utf8", "utf8", "crc", "vcrc", "usage", "direct"],
+        (6, false) => &["read", "read", "peek", "slice", "skip", "seek_start", "pos", "ensure", "exact"],
+        (6, true) => &["read", "read", "peek", "slice", "skip", "seek_start", "pos", "ensure", "exact", "vec", "usage", "usage"],
+        (7, false) => &["read", "slice", "zslice", "peek", "zpeek", "skip", "seek_start", "byte", "pos"],
+        (7, true) => &["read", "slice", "zslice", "peek", "zpeek", "skip", "seek_start", "byte", "pos", "usage"],
+        (_, false) => &["read", "read", "exact"],
+        (_, true) => &["read", "read", "exact", "vec", "add_range", "next_range", "minfo"],
     };
     let nops = match r.below(4) { 0 => r.below(4), 1 => 30 + r.below(40), _ => r.below(16) } as usize;
     let mut ops = vec![];
@@ -435,6 +947,10 @@ pub fn gen_reader_case(r: &mut Rng, kind: usize) -> (Vec<u8>, Vec<u64>, Vec<Op>)
         let n = match name {
             "seek_cur" | "seek_end" => { let m = gen_sizes(r, cap); if r.chance(1, 2) { -m } else { m } }
             "seek_start" | "seek_in" => if r.chance(1, 3) { (dl as i64 - r.below(12) as i64 + 2).max(0) } else { r.below(dl as u64 + 3) as i64 },
+            "set_total" => r.below(dl as u64 + 3) as i64,
+            "add_range" => { let a = r.below(dl as u64 + 1); let b = a + r.below(dl as u64 + 1 - a); ((a << 20) | b) as i64 }
+            // a zero-byte read moves the multi-range reader to its next range or not, which nothing specifies
+            _ if kind == 8 => gen_sizes(r, cap).max(1),
             _ => gen_sizes(r, cap),
         };
         ops.push((name.to_string(), n));
@@ -443,14 +959,109 @@ pub fn gen_reader_case(r: &mut Rng, kind: usize) -> (Vec<u8>, Vec<u64>, Vec<Op>)
     if r.chance(1, 3) { for _ in 0..(dl / 2 + 3).min(60) { ops.push(("read".to_string(), 1 + r.below(3) as i64)); } }
     (data, cfg, ops)
 }
+/// The preset constructors (64 KiB default buffers) over a few KiB of text, request sizes around the presets' thresholds.
+fn gen_preset_case(r: &mut Rng, kind: usize) -> (Vec<u8>, Vec<u64>, Vec<Op>) {
+    let dl = *r.pick(&[0usize, 1, 100, 2047, 2048, 4096, 5000, 9000, 20000]);
+    let data = gen_data(dl, r.next(), r.below(3));
+    let cfg = vec![r.below(5), 0, 0, 0, 0, 0, *r.pick(&[0u64, 0, 1, 700, 5000])];
+    let names: &[&str] = if kind == 11 { &["read", "read", "byte", "slice", "ensure", "simd", "bulk", "fill_buf", "consume", "exact", "vec", "utf8", "usage"] }
+        else { &["read", "read", "peek", "skip", "opt", "ensure", "slice", "exact", "vec", "utf8", "crc", "vcrc", "usage"] };
+    let sizes = [0i64, 1, 2, 7, 64, 1000, 2047, 2048, 2049, 4095, 4096, 4097, 8191, 8192, 8193, 16384, 20001];
+    let nops = 2 + r.below(14) as usize;
+    let ops = (0..nops).map(|_| ((*r.pick(names)).to_string(), *r.pick(&sizes))).collect();
+    (data, cfg, ops)
+}
+/// Deterministic big cases: inputs of 50 KB .. 8 MB (named by (n, seed, mode)), the preset configurations, request sizes
+/// around 2048 / 4096 / 8192 / 16384 / 32768 / 65536 and the long small-read histories that walk a buffer to its maximum.
+pub fn big_reader_cases(thorough: bool) -> Vec<(usize, (usize, u64, u64), Vec<u64>, Vec<Op>)> {
+    let o = |n: &str, k: i64| (n.to_string(), k);
+    let reads = |cnt: i64, sz: i64| ("reads".to_string(), (cnt << 24) | sz);
+    let mut v = vec![];
+    // every preset, plain and short-read inner: growth beyond the initial capacity, the bulk bypass, BufRead, vectored reads
+    for preset in 0..5u64 {
+        for chunk in [0u64, 1000] {
+            let ops = vec![o("read", 1000), o("usage", 0), o("utf8", 0), o("slice", 70000), o("slice", 70000), o("ensure", 9000), o("read", 8192), o("read", 8191), o("bulk", 4096), o("bulk", 2048),
+                o("fill_buf", 0), o("consume", 5000), o("utf8", 0), o("vec", 20000), o("usage", 0), o("exact", 65537), reads(100, 777), o("byte", 0), o("simd", 16384), o("read", 16383), o("usage", 0), reads(40, 2047), o("exact", 3)];
+            v.push((11, (200_000, 11 + preset, 2), vec![preset, 0, 0, 0, 0, 0, chunk], ops));
+        }
+    }
+    // a long stream in small pieces: more bytes than the preset's maximum buffer would hold if the buffer were never rewound
+    for (preset, n, sz) in [(3u64, 1_150_000usize, 1000i64), (2, 2_300_000, 1000), (0, 7_700_000, 4000), (1, 8_600_000, 4000)] {
+        if !thorough && preset == 1 { continue; }
+        v.push((11, (n, 50 + preset, 0), vec![preset, 0, 0, 0, 0, 0, 0], vec![o("read", 100), reads(n as i64 / sz + 2, sz), o("usage", 0), o("read", 1)]));
+    }
+    // ZeroCopyReader::new: the large-read bypass at half the 64 KiB buffer, peeks at and beyond the capacity, long skips
+    for chunk in [0u64, 3000] {
+        let ops = vec![o("read", 1000), o("crc", 0), o("utf8", 0), o("read", 32768), o("read", 32767), o("peek", 65536), o("peek", 65537), o("read", 10), o("skip", 8193), o("usage", 0), o("skip", 20000), o("slice", 40000),
+            o("vcrc", 0), reads(50, 3000), o("opt", 70000), o("vec", 50000), o("ensure", 65536), o("exact", 65537), reads(30, 1)];
+        v.push((12, (400_000, 21 + chunk, 2), vec![0, 0, 0, 0, 0, 0, chunk], ops));
+    }
+    // MemoryMappedInput: above 64 KiB a sequential hint prefetches the map; from 1 MiB the huge-page strategy is tried
+    for (n, variant) in [(70_000usize, 5u64), (70_001, 10), (1_048_576, 1), (1_100_000, 9), (1_048_575, 7)] {
+        if !thorough && n == 1_048_575 { continue; }
+        let ops = vec![o("usage", 0), o("read", 5000), o("skip", 10000), o("peek", 4096), o("zslice", 8193), o("byte", 0), o("seek_start", n as i64 - 100), o("usage", 0), o("zpeek", 100), o("read", 100), o("seek_start", 0), o("slice", 65537), o("pos", 0), o("seek_start", n as i64 - 1), o("usage", 0), o("read", 2)];
+        v.push((7, (n, 31, 0), vec![0, 0, 0, 0, 0, 0, 0, 0, 0, 0, 0, variant], ops));
+    }
+    v.push((6, (100_000, 32, 1), vec![], vec![o("usage", 0), o("read", 70000), o("vec", 9000), o("peek", 100), o("skip", 8193), o("usage", 0), o("slice", 12000), o("seek_start", 99_999), o("read", 2), o("usage", 0)]));
+    // RangeReader as DataInput over a big stream: skip and read_vec work in 8 KiB / 64 KiB steps
+    for variant in [0u64, 1, 2] {
+        let ops = vec![o("rinfo", 0), o("skip", 8191), o("skip", 8192), o("skip", 8193), o("pos", 0), o("slice", 65536), o("slice", 65537), o("skip", 20000), o("inner_pos", 0), o("slice", 70000), o("rinfo", 0), o("set_total", 240_000),
+            o("seek_end", -10), o("read", 100), o("rinfo", 0), o("seek_start", 5), o("vec", 30000), o("inner_pos", 0)];
+        v.push((2, (300_000, 33, 0), vec![8, 8, 1, 2, 8192, 0, 1, 1000, 250_000, 0, 0, variant], ops));
+    }
+    v.push((3, (120_000, 34, 0), vec![8, 8, 1, 2, 8192, 0, 3000, 500, 100_000, 0, 0, 1], vec![o("skip", 8193), o("slice", 70000), o("rinfo", 0), o("vec", 9000), o("skip", 10000), o("pos", 0), o("read", 100), o("set_total", 99_000), o("exact", 3000), o("rinfo", 0)]));
+    // the wrappers stacked, realistic sizes
+    v.push((9, (50_000, 35, 2), vec![4096, 16384, 1, 2, 8192, 0, 1, 100, 40_000, 1, 4, 0], vec![o("skip", 8193), o("slice", 10000), o("read", 4096), o("rinfo", 0), o("vec", 5000), o("exact", 9000), o("pos", 0)]));
+    v.push((10, (50_000, 36, 2), vec![4096, 16384, 0, 1, 2048, 1, 1, 100, 40_000, 0, 4, 0], vec![o("read", 1000), o("utf8", 0), o("slice", 4096), o("ensure", 5000), o("bulk", 2048), o("vec", 5000), o("usage", 0), reads(30, 1300), o("exact", 100)]));
+    // multi-range reader over a big file, ranges added while reading
+    let mr = |a: i64, b: i64| ("add_range".to_string(), (a << 20) | b);
+    v.push((8, (100_000, 37, 0), vec![8, 8, 1, 2, 8192, 0, 1, 0, 0, 0, 10, 20_000, 50_000, 50_000, 90_000, 99_999], vec![o("minfo", 0), o("read", 9000), o("exact", 1000), mr(0, 10), o("next_range", 0), o("minfo", 0), o("vec", 3000), o("exact", 6000), o("next_range", 0), o("exact", 10), o("read", 5), mr(70_000, 70_100), o("exact", 100), o("read", 1), o("minfo", 0)]));
+    v
+}
 pub fn gen_writer_case(r: &mut Rng, kind: usize) -> (Vec<u64>, Vec<Op>) {
+    let kind = kind % N_WKIND;
     let cap = *r.pick(&[0usize, 1, 2, 3, 4, 8, 16]);
-    let cfg = vec![cap as u64, *r.pick(&[1u64, 2, 4, 8, 8192, 8192]), 1 + r.below(3), r.below(40), r.below(24), r.below(48)];
-    let names: &[&str] = match kind % N_WKIND { 0 | 1 => &["write", "write", "write_all", "byte", "flush"], 2 | 3 => &["write", "write", "write_all", "zc", "flush"], _ => &["write", "write", "flush"] };
+    let mut cfg = vec![cap as u64, *r.pick(&[1u64, 2, 4, 8, 8192, 8192]), 1 + r.below(3), r.below(40), r.below(24), r.below(48), r.below(6)];
+    if matches!(kind, 8 | 9) { cfg[2] = *r.pick(&[0u64, 0, 1, 3000]); }
+    // half of the cases of the older kinds keep the older operation mix
+    let ext = r.chance(1, 2);
+    let names: &[&str] = match (kind, ext) {
+        (0 | 1, false) => &["write", "write", "write_all", "byte", "flush"],
+        (0 | 1, true) => &["write", "write", "write_all", "byte", "flush", "vecw", "vecw", "winfo", "direct"],
+        (2 | 3, false) => &["write", "write", "write_all", "zc", "flush"],
+        (2 | 3, true) => &["write", "write", "write_all", "zc", "flush", "vecw", "vecw", "zc_ensure", "winfo", "direct"],
+        (4, false) => &["write", "write", "flush"],
+        (4, true) => &["write", "write", "flush", "vecw"],
+        (5, _) => &["write", "write", "write_all", "byte", "flush", "vecw", "seek_start", "seek_cur", "seek_cur", "seek_end"],
+        (6, _) => &["write", "write", "write", "flush", "vecw", "winfo", "seek_start", "seek_cur", "seek_cur", "seek_end"],
+        (7, _) => &["write", "write", "write_all", "byte", "zc", "flush", "seek_start", "seek_start", "truncate", "winfo"],
+        (8, _) => &["write", "write", "write_all", "byte", "flush", "vecw", "winfo"],
+        (9, _) => &["write", "write", "write_all", "zc", "flush", "vecw", "zc_ensure", "winfo"],
+        _ => &["fill", "fill", "drain", "zc", "zcr", "byte", "compact", "reset", "zc_ensure", "seek_start"],
+    };
     let nops = if r.chance(1, 4) { 30 + r.below(30) } else { r.below(14) } as usize;
-    let ops = (0..nops).map(|_| ((*r.pick(names)).to_string(), gen_sizes(r, cap.max(1)))).collect();
+    let big = [1i64, 100, 2047, 2048, 4095, 4096, 8191, 8192, 8193, 32767, 32768, 32769, 65535, 65536, 65537];
+    let ops = (0..nops).map(|_| {
+        let name = *r.pick(names);
+        let n = match (kind, name) {
+            (5 | 6, "seek_cur" | "seek_end") => { let m = gen_sizes(r, cap.max(1)); if r.chance(1, 2) { -m } else { m } }
+            (5 | 6, "seek_start") => r.below(60) as i64,
+            (7, "seek_start") => r.below(70) as i64,
+            (7, _) => if r.chance(1, 6) { *r.pick(&[127i64, 128, 129, 4095, 4096, 4097]) } else { gen_sizes(r, cap.max(1)) },
+            (8 | 9, _) => if r.chance(1, 2) { *r.pick(&big) } else { gen_sizes(r, 16) },
+            _ => gen_sizes(r, cap.max(1)),
+        };
+        (name.to_string(), n)
+    }).collect();
     (cfg, ops)
 }
 pub fn parse_reader(c: &Value) -> (usize, Vec<u8>, Vec<u64>, Vec<Op>) {
-    (c["kind"].as_u64().unwrap_or(0) as usize, u8s(&c["data"]), c["cfg"].as_array().map(|a| a.iter().map(|x| x.as_u64().unwrap_or(0)).collect()).unwrap_or_default(), ops_parse(&c["ops"]))
+    let data = match c.get("gen").and_then(|g| g.as_array()) {
+        Some(g) => gen_data(g.get(0).and_then(|x| x.as_u64()).unwrap_or(0) as usize, g.get(1).and_then(|x| x.as_u64()).unwrap_or(0), g.get(2).and_then(|x| x.as_u64()).unwrap_or(0)),
+        None => u8s(&c["data"]),
+    };
+    (c["kind"].as_u64().unwrap_or(0) as usize, data, c["cfg"].as_array().map(|a| a.iter().map(|x| x.as_u64().unwrap_or(0)).collect()).unwrap_or_default(), ops_parse(&c["ops"]))
+}
+pub fn parse_gen(c: &Value) -> Option<(usize, u64, u64)> {
+    c.get("gen").and_then(|g| g.as_array()).map(|g| (g.get(0).and_then(|x| x.as_u64()).unwrap_or(0) as usize, g.get(1).and_then(|x| x.as_u64()).unwrap_or(0), g.get(2).and_then(|x| x.as_u64()).unwrap_or(0)))
 }
